@@ -72,6 +72,15 @@ theorem ms_suffix : ∀ (r : Re) (s t : Text), t ∈ ms r s → t <:+ s := by
       split at h
       · simp at h; subst h; exact List.suffix_refl _
       · simp at h
+  | nahead neg rs =>
+    intro s t h
+    cases s with
+    | nil => simp [ms] at h; subst h; exact List.suffix_refl _
+    | cons d s =>
+      simp only [ms] at h
+      split at h
+      · simp at h
+      · simp at h; subst h; exact List.suffix_refl _
 
 theorem ms_length_le (r : Re) (s t : Text) (h : t ∈ ms r s) : t.length ≤ s.length :=
   (ms_suffix r s t h).length_le
@@ -112,6 +121,7 @@ theorem ms_progress : ∀ (r : Re), nullable r = false →
   | opt a _ => intro h; simp [nullable] at h
   | lazyStar a _ => intro h; simp [nullable] at h
   | ahead c => intro h; simp [nullable] at h
+  | nahead neg rs => intro h; simp [nullable] at h
 
 theorem starIter_ne_nil (step : Text → List Text) (n : Nat) (s : Text) : starIter step n s ≠ [] := by
   cases n <;> simp [starIter]
@@ -152,6 +162,7 @@ theorem total_ms : ∀ (r : Re), covers.total r = true → ∀ s, ms r s ≠ [] 
   | opt a _ => intro _ s; simp [ms]
   | lazyStar a _ => intro _ s; exact lazyIter_ne_nil _ _ _
   | ahead c => intro h; simp [covers.total] at h
+  | nahead neg rs => intro h; simp [covers.total] at h
 
 /-- `covers r c` ⇒ `r` matches at the front of every text that starts with `c` -/
 theorem covers_ms : ∀ (r : Re) (c : Nat), covers r c = true → ∀ s, ms r (c :: s) ≠ [] := by
@@ -177,6 +188,7 @@ theorem covers_ms : ∀ (r : Re) (c : Nat), covers r c = true → ∀ s, ms r (c
   | opt a _ => intro c _ s; simp [ms]
   | lazyStar a _ => intro c _ s; exact lazyIter_ne_nil _ _ _
   | ahead c => intro d h; simp [covers] at h
+  | nahead neg rs => intro d h; simp [covers] at h
 
 /-! ### the executable matcher computes the head of the list of successes -/
 
@@ -264,6 +276,15 @@ theorem m_eq_ms {α} : ∀ (r : Re) (s : Text) (k : Text → Option α), m r s k
     cases (ms a s).findSome? k <;> simp
   | lazyStar a iha => intro s k; simp only [m, ms]; exact mLazy_eq _ _ iha k _ s
   | ahead c =>
+    intro s k
+    cases s with
+    | nil => simp [m, ms]
+    | cons d s =>
+      simp only [m, ms]
+      split
+      · simp
+      · simp
+  | nahead neg rs =>
     intro s k
     cases s with
     | nil => simp [m, ms]
